@@ -166,3 +166,34 @@ claim("C18",
       "state and the behaviour over sequences of environment changes are not decided.",
       "Trusted: analysis/sym.py path enumeration.",
       "DESIGN.md 5/C18")
+
+# ---- additions after the second round of seeded changes (rules added for what was missed; see DESIGN.md 11.7) ------------------
+def also(pid, text, technique=None):
+    t, x, n, r = CLAIMS[pid]
+    CLAIMS[pid] = ((t + "; " + technique) if technique else t, x + " " + text, n, r)
+
+
+also("C01", "Also: Mdf::new accepts exactly month <= 12, day <= 31 tested on the unshifted arguments (acceptance box).")
+also("C02", "Also: no TimeZone::timestamp_* wrapper decides on its own (every return lies behind the call of the core constructor it wraps).", "must-pass-through")
+also("C03", "Also: the remaining-length unit of each date iterator matches its step (num_days / num_weeks).")
+also("C05", "Also (rule-day arithmetic and lookups, structural parts only): the month-length and cumulative-day tables of RuleDay::transition_date against the calendar incl. the leap-year "
+            "array literal; in the wall-clock lookup no comparison relates the wall-clock argument to a bare UTC transition instant (tag propagation: local vs UTC coordinates); the UTC "
+            "lookup counts a transition at its own instant (binary_search_by_key arms / partition_point predicate; other idioms: undecided, no alarm).",
+     "coordinate-tag propagation over MIR locals")
+also("C06", "Also: the two Sum implementations fold with the same operator from zero.")
+also("C07", "Also: every operator impl of NaiveTime delegates to the core function of its own direction and operand kind; Add/Sub<std Duration> reduce by the same constants.")
+also("C09", "Also: in parse_internal both sign arms read an unbounded digit run; in NaiveTime's Debug the fraction tested for trailing zeros is the fraction printed (one base term per path).")
+also("C10", "Also: no value a scanner returned is dropped before a Parsed setter (term flow on every successful path); the plain four-digit year form is used exactly for 0..=9999.")
+also("C11", "Also: no scanned value is dropped before a Parsed setter; the year is written as exactly four digits.")
+also("C12", "Also: the sub-second value tested and printed, and the offset value divided into hours/minutes/seconds, are one term per path (no mixing of rounded and unrounded / reduced and raw values).")
+also("C13", "Also: no scanned value is dropped; every white-space test of tokenizer and reader is the Unicode predicate; both sign arms agree.")
+also("C14", "Also: each of the three consistency checks of to_naive_date reads exactly its own field group; to_datetime_with_timezone returns the candidate whose offset check held (and for Ambiguous only when the other failed).")
+also("C15", "Also: a documented-panicker boundary (a call from non-panicking code into an operator / `# Panics` function must exclude the panic at the call site); no `str` slice offset derives from a "
+            "count of characters (tag propagation); compile-fail witnesses that the invariant-carrying types are closed (35 doctests, each with a compiling twin). Thorough tier: the same for "
+            "every public function that is not a documented panicker, and the builds with unstable-locales and without std.",
+     "compile-fail witnesses, coordinate-tag propagation")
+also("C16", "Also: validate() range-checks the type index of every transition (recognised counting loop: start 0, step 1, guard len, check dominates the increment, other exits are Err) and the "
+            "lookups index local_time_types only with 0 or a validated index; the reads of every chunks_exact record tile the record exactly (linear boundary forms).",
+     "counting-loop recognition, record-layout tiling")
+also("C19", "Also: FromStr for Weekday/Month returns Ok only after finding the scanner's remainder empty; WeekdaySet::from_iter has no truncating adapter.")
+also("C20", "Also: every ts_* deserialize requests i64 (option: deserialize_option then i64), the primitive its serialize wrote.")
